@@ -239,4 +239,16 @@ PROPS["C16"] = {
     "level_note": "partial: round-trip theorems cover AppendEntries request/response and response streams; the other message types and the pool discipline are covered by H5 observations only.",
 }
 
+PROPS["C09"] = {
+    "lean_module": "RaftVerif.Props.C09",
+    "theorems": [
+        T("VL.verify_acks_produced_after_call", "heartbeat routine model (requests taken when the heartbeat is sent, put back on failure): every credited acknowledgement answers a heartbeat sent strictly after the request was registered - any number of followers, every schedule of registrations, sends, responses and failures"),
+        T("VL.C09_straddling_ack_witness", "witness for the behaviour before the repair: send, register, response credits an acknowledgement produced before the call"),
+    ],
+    "engines": [cluster("C09", 240, 5000)],
+    "assumptions": [H3_NOTE, "1/6 of the cluster cases are the two litmus schedules (leader with a slow clock; only non-voters reachable / a heartbeat answer held in the network across an election); monitor: a successful VerifyLeader on s in term T while another server had acted as leader of a higher term before the call began is a violation",
+                    "the voters-only clause (quorum arithmetic) is covered by the monitor and the litmus, not by a theorem"],
+    "level_note": "partial: the theorem covers the freshness clause for the heartbeat routine; voter counting is covered by H3 only.",
+}
+
 HOOK_COMMITS = ["dfecdf5"]
